@@ -21,3 +21,4 @@ PROP = {'engine': 'stack',
  'level_note': 'calls are sequential at API granularity; the Logs/Telemetry subscription routes are not part of the property',
  'technique': 'property-based testing (rapid), stateful model-based: reference registration/lifecycle model as oracle and generator guide'}
 PROP['rule'] += ' Round-4 addition (lateExit, a third of the cases): after the closing invocation an INVOKE-subscribed external extension that is parked on its next reports an exit error on another connection, a second invocation begins, and the extension then tries next, init/error, exit/error, next: 403 InvalidExtensionState, 403, 202, 403 - an exit error is final (what the parked call itself is answered is not judged).'
+PROP['rule'] += " Round-10 addition: registrations also ask for near-misses of the two event names (invoke, Invoke, ' INVOKE', shutdown): refused with Extension.InvalidEventType, nothing left behind (a fixed case ends with an invocation)."
